@@ -77,7 +77,12 @@ class MailboxProgram(Program):
         else:
             st, ch = self.call(st, 'Channel::<A>::bounded', [VScalar(self.cap)])
         st, env = self.call(st, 'Environment::<A, R>::from_channel', [ch])
-        st, la = self.call(st, 'Environment::<A, R>::create_loop', [env, VSym('actor0', 'A')])
+        if getattr(self, 'stream', False):
+            # a stream-attached actor: the stream is a scripted queue fed by client operations (feed / end_stream)
+            st.meta['ustream'] = S.mobj(st, 'ustream', items=(), closed=False, ended=False)
+            st, la = self.call(st, 'Environment::<A, R>::create_loop_on_stream::<S>', [env, VSym('actor0', 'A'), VSym('stream', 'S')])
+        else:
+            st, la = self.call(st, 'Environment::<A, R>::create_loop', [env, VSym('actor0', 'A')])
         loop, addr = la.fields[('f', 0)], la.fields[('f', 1)]
         self.chan_oid = next(ev[1] for ev in st.events if ev[0] == 'chan_new')
         self.add_task(st, 'loop', loop)
@@ -103,6 +108,17 @@ class MailboxProgram(Program):
         elif k == 'ping':
             s2, fut = self.call(st, 'Addr::<A>::ping', [self.href(st, op[1])])
             yield s2, fut
+        elif k in ('feed', 'end_stream'):
+            us = st.meta['ustream']
+            q = S.mget(st, us)
+            if k == 'feed':
+                S.mset(st, us, items=q['items'] + (op[1],))
+                st.event('stream_feed', op[1])
+            else:
+                S.mset(st, us, closed=True)
+                st.event('stream_closed')
+            st.event('op_end', name, pc, k, 'Ok')
+            yield st, None
         elif k == 'stop':
             s2, r = self.call(st, 'Addr::<A>::stop', [self.href(st, op[1], True)])
             s2.event('op_end', name, pc, 'stop', self.sys.describe_result(s2, r))
@@ -512,6 +528,103 @@ def oracle_containment(tr, status, scripts):
     late = [e for e in tr[death + 1:] if e[0] == 'user_call']
     if late:
         v.append(f"callback {late[0][1]} ran after the actor task had died")
+    return v
+
+
+def oracle_stream(tr, status, scripts):
+    """C13 at system level: a stream-attached actor handles every item the stream yields exactly once, in stream order,
+    each to completion; when the stream ends, on stop, or on the last drop: finished then stopped exactly once and the
+    loop ends Ok; the stream is not polled again after it ended; the actor does not outlive the end of its stream"""
+    v = []
+    fed = [e[1] for e in tr if e[0] == 'stream_feed']
+    yielded = [e[1] for e in tr if e[0] == 'stream_yield' and e[1] != 'end']
+    handled = [str(e[4]) for e in tr if e[0] == 'user_call' and e[1] == 'stream']
+    done = [str(e[4]) for e in tr if e[0] == 'user_done' and e[1] == 'stream']
+    def ids(xs):
+        return [next((f for f in fed if f in x), x) for x in xs]
+    handled, done = ids(handled), ids(done)
+    if yielded != fed[:len(yielded)]:
+        v.append(f"the stream yielded {yielded} although it was fed {fed}")
+    if handled != yielded[:len(handled)]:
+        v.append(f"items handled {handled} but the stream yielded {yielded}")
+    death = next((i for i, e in enumerate(tr) if e[0] in ('task_done', 'task_killed', 'task_panicked') and e[1] == 'loop'), None)
+    if death is not None and tr[death][0] == 'task_done' and len(handled) != len(yielded):
+        v.append(f"the stream yielded {len(yielded)} items but {len(handled)} were handled before the actor ended")
+    if death is not None and tr[death][0] == 'task_done' and done != handled:
+        v.append(f"an item handler was abandoned: started {handled}, completed {done}")
+    if any(e[0] == 'stream_polled_after_end' for e in tr):
+        v.append("the stream was polled again after it had ended")
+    end = next((i for i, e in enumerate(tr) if e[0] == 'stream_yield' and e[1] == 'end'), None)
+    if end is not None:
+        late = [e for e in tr[end + 1:] if e[0] == 'user_call' and e[1] in ('stream', 'handle')]
+        if late:
+            v.append(f"a {late[0][1]} callback ran after the stream had ended")
+        if status == 'quiescent' and death is None:
+            v.append("the stream ended but the actor did not terminate")
+    if death is not None and tr[death][0] == 'task_done' and str(tr[death][2]).startswith('Ok'):
+        cbs = [e[1] for e in tr[:death] if e[0] == 'user_done' and e[1] in ('finished', 'stopped')]
+        if cbs != ['finished', 'stopped']:
+            v.append(f"a stream-attached actor ended gracefully with the closing callbacks {cbs}, expected ['finished', 'stopped']")
+    closed = any(e[0] == 'stream_closed' for e in tr)
+    if status == 'quiescent' and closed and death is None and end is None:
+        v.append("the stream was closed but the actor never observed its end (system quiescent)")
+    return v
+
+
+def oracle_lifecycle(tr, single=True):
+    """C03 at system level: per actor (context) the callbacks follow the lifecycle protocol - started first and complete
+    before anything else, callbacks never overlap, nothing after a failed started, after stopped only a new started
+    (restart); for the single-actor programs: the loop ends Ok only right after stopped(), and once it ended nothing runs"""
+    v = []
+    per = {}
+    for i, e in enumerate(tr):
+        if e[0] in ('user_call', 'user_done') and e[1] in ('started', 'stopped', 'handle', 'finished', 'stream'):
+            per.setdefault(e[3], []).append((i, e))
+    for ctx, evs in per.items():
+        state = 'new'        # new -> starting -> running -> stopping -> stopped -> starting ... | failed
+        open_cb = None
+        for i, e in evs:
+            kind = e[1]
+            if e[0] == 'user_call':
+                if open_cb is not None:
+                    v.append(f"{ctx}: {kind} was called while {open_cb} had not completed")
+                open_cb = kind
+                if state == 'failed':
+                    v.append(f"{ctx}: {kind} was called after started() had failed")
+                elif kind == 'started':
+                    if state not in ('new', 'stopped'):
+                        v.append(f"{ctx}: started() was called in state {state}")
+                    state = 'starting'
+                elif kind == 'stopped':
+                    if state not in ('running', 'finished'):
+                        v.append(f"{ctx}: stopped() was called in state {state}")
+                    state = 'stopping'
+                elif kind == 'finished':
+                    if state != 'running':
+                        v.append(f"{ctx}: finished() was called in state {state}")
+                    state = 'finishing'
+                else:
+                    if state != 'running':
+                        v.append(f"{ctx}: a {kind} callback ran in state {state}")
+            else:
+                open_cb = None
+                if kind == 'started':
+                    state = 'running' if str(e[4]) == 'ok' else 'failed'
+                elif kind == 'stopped':
+                    state = 'stopped'
+                elif kind == 'finished':
+                    state = 'finished'
+        if single and ctx == 'ctx0':
+            end = next((i for i, e in enumerate(tr) if e[0] == 'task_done' and e[1] == 'loop'), None)
+            if end is not None:
+                ok_end = str(tr[end][2]).startswith('Ok')
+                if ok_end and state != 'stopped':
+                    v.append(f"the loop ended Ok in lifecycle state {state} (stopped() did not run last)")
+                if not ok_end and state not in ('failed',):
+                    v.append(f"the loop ended with an error in lifecycle state {state}")
+                late = [e for (i, e) in evs if i > end]
+                if late:
+                    v.append(f"{late[0][1]} ran after the loop had ended")
     return v
 
 
